@@ -496,14 +496,17 @@ class MockIncludeDirective:
             return codeblock.run()
 
         # guard against circular inclusion
+        # (paths are normalised, since e.g. "sub/../sub/a.md" names the same file as "sub/a.md")
         include_stack: list[str] = self.renderer.md_env.setdefault(
-            "include_stack", [str(Path(self.document["source"]).absolute())]
+            "include_stack",
+            [os.path.normpath(Path(self.document["source"]).absolute())],
         )
-        if str(path) in include_stack:
+        include_path = os.path.normpath(path)
+        if include_path in include_stack:
             raise DirectiveError(
                 4,
                 f'Directive "{self.name}": circular inclusion: '
-                f'{" > ".join([*include_stack, str(path)])}',
+                f'{" > ".join([*include_stack, include_path])}',
             )
 
         # Here we perform a nested render, but temporarily setup the document/reporter
@@ -511,7 +514,7 @@ class MockIncludeDirective:
         source = self.renderer.document["source"]
         rsource = self.renderer.reporter.source
         line_func = getattr(self.renderer.reporter, "get_source_and_line", None)
-        include_stack.append(str(path))
+        include_stack.append(include_path)
         try:
             self.renderer.document["source"] = str(path)
             self.renderer.reporter.source = str(path)
